@@ -24,7 +24,7 @@ def specToken (t : String) : Option Bytes :=
     | 45 :: ds => -(Model.digitsValue ds 0 : Int)
     | ds => (Model.digitsValue ds 0 : Int)
   if t.isEmpty then some []
-  else if isDec && -2147483648 ≤ decVal && decVal ≤ 2147483647 then some (Model.pushInt64 decVal)
+  else if isDec && -9223372036854775808 ≤ decVal && decVal ≤ 9223372036854775807 then some (Model.pushInt64 decVal)
   else if b.length % 2 == 0 && b.all (fun c => (Model.hexDigitVal c).isSome) then
     (Model.tryHex b).map Spec.pushOf
   else
